@@ -517,3 +517,33 @@ func (e *Env) sequenceOrder(rule string, fn *ssa.Function, cfg gcfg, label strin
 		}
 	}
 }
+
+// rejectionsListed (rule REJECT): every branch of fn that leads only to
+// exits other than `success` is the failing side of one of the listed gates.
+// An additional rejecting condition is an over-rejection candidate.
+func rejectionsListed(e *Env, rule string, fn *ssa.Function, success gate.Outcome, cfg gcfg, gs []gate.Gate, what string) int {
+	if fn == nil {
+		return 0
+	}
+	ctx := gate.New(e.P, e.P.VTA(), cfg.assume...)
+	n := 0
+	for _, r := range ctx.Rejections(fn, success) {
+		n++
+		var fs []string
+		for _, f := range r.Facts {
+			fs = append(fs, f.String())
+		}
+		desc := strings.Join(fs, " ; ")
+		if len(desc) > 240 {
+			desc = desc[:240] + "..."
+		}
+		key := fmt.Sprintf("%s:reject#%d", load.FuncName(fn), n)
+		pos := e.P.InstrPos(r.Block.Instrs[len(r.Block.Instrs)-1])
+		if g, ok := ctx.Listed(r, gs); ok {
+			e.R.OK(rule, key, pos, "rejecting branch is the failing side of listed gate "+g).Config = cfg.name
+		} else {
+			e.R.Fail(rule, key, pos, "a branch rejects on a condition that is not one of the listed ones ("+what+")", "rejects when: "+desc).Config = cfg.name
+		}
+	}
+	return n
+}
